@@ -13,4 +13,11 @@ macro_rules! debug_assert { ($($t:tt)*) => {}; }
 macro_rules! debug_assert_eq { ($($t:tt)*) => {}; }
 // assert!/assert_eq!/unreachable! are panics: reaching one is a proof obligation (`unreached` requires false).
 macro_rules! assert_eq { ($a:expr, $b:expr $(, $($t:tt)*)?) => { if !($a == $b) { vstd::pervasive::unreached::<()>() } }; }
-macro_rules! unreachable { ($($t:tt)*) => { vstd::pervasive::unreached() }; }
+macro_rules! assert { ($c:expr $(, $($t:tt)*)?) => { if !($c) { vstd::pervasive::unreached::<()>() } }; }
+macro_rules! unreachable { ($($t:tt)*) => { verif_unreachable() }; }
+verus! {
+#[verifier::external_body]
+pub fn verif_unreachable() -> !
+    requires false,
+{ panic!() }
+}
